@@ -67,6 +67,16 @@ Inductive case :=
           (now wall t1 w1 : Z) (obs : option Z)
 (* a cut served through the pipeline: expires, bracket, shown ttl (-1 miss), meta after *)
 | CCutServe (route : N) (expires t0 t1 ttl : Z) (bound_obs : option Z)
+(* a cut RE-recorded by the client path during one request tree from the denial the rung
+   synthesised out of the older cut for the same name (session 5): the older cut's expiry, start of
+   the query, the new entry's record inputs read back from it (as CCutRec: SOA ttl / minimum, the
+   stored proof records, its single clock reading [now]/[wall]), the request bound after the
+   query, the new expiry.  The lease the code passed is the bound of the (sub-)request that wrote
+   the adopted denial: [top] = the top-level request itself wrote it last (its own answer was
+   admitted in this query and is the adopted NXDOMAIN): the lease is the observed bound, exactly;
+   otherwise a sub-request's, between the final bound of the whole tree and the older cut's expiry. *)
+| CCutRerec (top : bool) (max_ttl old_exp t0 soa_ttl soa_min : Z) (proof : list prr) (bound_obs : option Z)
+            (now wall new_exp : Z)
 (* denialProofExpiry(now, maxTTL, cutUntil, records), exact *)
 | CProofExp (max_ttl : Z) (cut : option Z) (records : list prr) (now : Z) (obs : option Z)
 (* denial proof cache with injected clock: SOA expiry, piece expiries, now; shown ttl / expiry *)
@@ -88,9 +98,11 @@ Inductive case :=
    bound afterwards (where readable), (stored, ttl, cut) of entries admitted *)
 | CProofTree (d dspec : Z) (lease : option Z) (ahit : option entry) (t0 t1 : Z) (ttls : list Z)
              (bobs : option (option Z)) (adm : list (Z * Z * option Z))
-(* a reply dns64 relays (session 4): mode 0 = A-basis reply (RFC 6147 5.1.6), 2 = PTR translation
+(* a reply dns64 relays (session 4): mode 0 = A-basis reply (RFC 6147 5.1.6, as repaired by 1a0e74f:
+   relayed TTLs capped by the request tree's bound), 2 = PTR translation
    (5.3.1; the first TTL observed is the synthesised CNAME's), 1 = the twin of an A-basis case that
-   judges one clause alone: the reply against the lifetime of the cached AAAA answer that gated it.
+   judges one clause alone: the reply against the lifetime of the cached AAAA answer that gated it
+   (the former finding dns64-abasis-gate; a strict regression case since 1a0e74f).
    [recs]: per relayed record the piece it was copied from; [consulted]: every answer the request
    tree consulted (the gate first); bracket; request bound afterwards (where readable); TTLs observed *)
 | CDns64Relay (mode : N) (gate : option piece) (recs consulted : list piece) (t0 t1 : Z)
@@ -328,13 +340,31 @@ Definition tree_spec (route : N) (pres : list pre) (pcuts : list ncut) (sc : lis
                                   end
                       | None => true
                       end) (g_an reply))
-  (* a denial synthesised from a subtree cut is inside the cut's lifetime *)
+  (* a denial synthesised from a subtree cut is inside the cut's lifetime.  An authority record
+     of the reply is the cut's when the cut holds that record (owner and data, as the code's
+     duplicate test reads them); the same record may ALSO sit in the authority section of a live
+     cached answer whose records are in the reply (an alias entry that adopted an earlier denial
+     of the zone: the merge keeps the first copy, at that entry's TTL) or of an answer fetched in
+     this tree: it then has to be inside one of its possible sources (session 5; before, every
+     record owned by a name the cut has records for was taken to be the cut's) *)
   && match cut_consulted 12 pres pcuts missed (g_an reply) (g_q reply) with
      | Some c =>
          if (g_rcode reply =? 3)%N then
-           forallb (fun r => if mem_n (m_owner r) (map m_owner (nc_ns c))
-                             then (t0 <? nc_expires c) && (m_ttl r * second <=? nc_expires c - t0)
-                             else true) (g_ns reply)
+           forallb (fun r =>
+             if existsb (mrr_dup r) (nc_ns c)
+             then ((t0 <? nc_expires c) && (m_ttl r * second <=? nc_expires c - t0))
+                  || existsb (fun p => match pre_end p with
+                                       | Some pe => negb (mem_n (p_name p) missed)
+                                                    && mem_n (p_name p) (map m_owner (g_an reply))
+                                                    && existsb (mrr_dup r) (g_ns (p_msg p))
+                                                    && (t0 <? pe) && (m_ttl r * second <=? pe - t0)
+                                       | None => false
+                                       end) pres
+                  || existsb (fun n => match find (fun x => (ns_name x =? n)%N) sc with
+                                       | Some x => existsb (fun y => mrr_dup r y && (m_ttl r <=? m_ttl y)) (g_ns (ns_msg x))
+                                       | None => false
+                                       end) missed
+             else true) (g_ns reply)
          else true
      | None => true
      end
@@ -503,6 +533,29 @@ Definition check_case (c : case) : bool :=
       | Some ex => oz_eqb (cut_record mx st sm proof cut now wall) (Some ex)
       | None => oz_eqb (cut_record mx st sm proof cut t1 w1) None
       end
+  | CCutRerec top mx old t0 st sm proof bobs now wall ex =>
+      (* exact when the top-level request recorded it (lease = the bound observed); otherwise a
+         sandwich: record with the lease at its latest (the older cut's expiry, which the rung
+         folded) and at its earliest (the bound the whole tree was left with) *)
+      match bobs with
+      | None => false   (* the rung folds the older cut's expiry: the tree cannot be unbounded *)
+      | Some b =>
+          (b <=? old)
+          && match (if top then cut_record mx st sm proof (Some b) now wall else None) with
+             | Some e => ex =? e
+             | None =>
+                 (* a sub-request recorded it -- or the top-level record was refused (its lease was
+                    already over) and the sub-request's cut stayed *)
+                 match cut_record mx st sm proof (Some old) now wall with
+                 | None => false
+                 | Some hi => (ex <=? hi)
+                              && match cut_record mx st sm proof (Some b) now wall with
+                                 | Some lo => lo <=? ex
+                                 | None => true
+                                 end
+                 end
+             end
+      end
   | CCutServe _ ex t0 t1 ttl bobs =>
       (if ttl <? 0 then negb (cut_live ex t1) || oz_eqb (cut_serve ex t1) None
        else cut_live ex t0
@@ -530,7 +583,7 @@ Definition check_case (c : case) : bool :=
       && match bobs with Some b => oz_eqb b (dns64_bound None consulted) | None => true end
   | CDns64Relay mode gate recs consulted t0 t1 bobs obs =>
       if (mode =? 1)%N then true
-      else list_z_eqb obs (if (mode =? 2)%N then dns64_ptr_reply recs t1 else dns64_basis_reply recs t1)
+      else list_z_eqb obs (if (mode =? 2)%N then dns64_ptr_reply recs t1 else dns64_basis_reply recs consulted t1)
            && match bobs with Some b => oz_eqb b (dns64_bound None consulted) | None => true end
   | CProofTree d dspec lease ahit t0 t1 ttls bobs adm =>
       match ahit with
@@ -617,6 +670,11 @@ Definition spec_case (c : case) : bool :=
                        ++ match cut with Some c => [c - now] | None => [] end in
           (now <? ex) && (ex - now <=? spec_plain cands mx)
       end
+  | CCutRerec top mx old t0 st sm proof bobs now wall ex =>
+      (* what is re-cached from a synthesised denial ends with the cut it was synthesised from;
+         no floor: inside every term of the records it was re-recorded with *)
+      (t0 <? old) && (ex <=? old) && (now <? ex)
+      && (ex - now <=? spec_plain ([st * second; sm * second] ++ flat_map (prr_cands wall) proof) mx)
   | CCutServe _ ex t0 t1 ttl bobs =>
       if ttl <? 0 then true else (t0 <? ex) && (ttl * second <=? ex - t0)
   | CProofExp mx cut recs now obs =>
@@ -683,6 +741,15 @@ Definition spec_case (c : case) : bool :=
                          | PHit e => (t0 <? entry_end e) && (x * second <=? entry_end e - t0)
                          | PFresh t _ => x <=? t
                          end) (combine relayed recs)
+        (* an A-basis reply is composed from the AAAA answer that gated it and the answers of the
+           A chase: no relayed record outlives ANY of them (cached: its end; fresh: the lease it
+           was learned under) -- since 1a0e74f; the PTR translation relays one answer only *)
+        && ((mode =? 2)%N
+            || forallb (fun x => forallb (fun p => match p with
+                                                   | PHit e => (t0 <? entry_end e) && (x * second <=? entry_end e - t0)
+                                                   | PFresh _ (Some l) => x * second <=? Z.max 0 (l - t0)
+                                                   | PFresh _ None => true
+                                                   end) consulted) obs)
         && match bobs with
            | Some b =>
                forallb (fun p => match p with
